@@ -4,6 +4,7 @@ import (
 	"fmt"
 	"go/token"
 	"go/types"
+	"strconv"
 	"strings"
 
 	"golang.org/x/tools/go/ssa"
@@ -900,4 +901,298 @@ func checkRecoveryVisitsEveryEntry(w *World, r *Run) {
 		}
 	}
 	r.Check(loopBody != nil && bad == "", rule, "recoverInterruptedTransactions keeps going after repairing an entry", fn.Pos(), "only error returns inside the loop", "the loop returns at "+bad+" without an error: after the first repaired backup the remaining leftovers of the same interrupted transaction are not restored — a multi-part object whose deletion never committed stays unreadable")
+}
+
+// checkC25TagPresence: a lifecycle tag predicate is satisfied only by an object that HAS the
+// tag: the map lookup must be the comma-ok form and its "absent" edge must answer false. With
+// a plain lookup a rule filtering on an empty tag value selects every object without the key.
+func checkC25TagPresence(w *World, r *Run) {
+	rule := r.Rule("tag-filter-requires-the-tag-to-be-present", "F1",
+		"LifecycleRuleMatchesObject reads the object's tags only through value, ok := tags[key] and answers false on the edge where ok is false", 1)
+	fn := w.SSAFunc("internal/storage", "LifecycleRuleMatchesObject")
+	if fn == nil {
+		r.Anchor(rule, "storage.LifecycleRuleMatchesObject")
+		return
+	}
+	n := 0
+	allInstrs(fn, false, func(_ *ssa.Function, ins ssa.Instruction) {
+		lk, ok := ins.(*ssa.Lookup)
+		if !ok {
+			return
+		}
+		if _, isMap := lk.X.Type().Underlying().(*types.Map); !isMap || paramIndex(fn, lk.X) < 0 {
+			return
+		}
+		n++
+		cons := "LifecycleRuleMatchesObject: tag lookup"
+		if n > 1 {
+			cons += " #" + strconv.Itoa(n)
+		}
+		if !lk.CommaOk {
+			r.Bad(rule, cons, lk.Pos(), "plain map lookup: an absent tag reads as the empty string, so a rule filtering on key=\"\" selects every object that does not carry the key at all (and expires or transitions it)")
+			return
+		}
+		good := false
+		for _, b := range fn.Blocks {
+			if len(b.Succs) != 2 {
+				continue
+			}
+			for k := 0; k < 2; k++ {
+				for _, f := range edgeFacts(b, k) {
+					ex, isEx := f.Val.(*ssa.Extract)
+					if !isEx || ex.Tuple != ssa.Value(lk) || ex.Index != 1 || f.Kind != IsFalse {
+						continue
+					}
+					succ := b.Succs[k]
+					if ret, isRet := succ.Instrs[len(succ.Instrs)-1].(*ssa.Return); isRet && len(ret.Results) == 1 {
+						if bv, isC := boolConst(ret.Results[0]); isC && !bv {
+							good = true
+						}
+					}
+				}
+			}
+		}
+		r.Check(good, rule, cons, lk.Pos(), "absent tag → no match", "the edge on which the tag is absent does not answer false: objects without the tag can match the rule")
+	})
+	if n == 0 {
+		r.Bad(rule, "LifecycleRuleMatchesObject: tag lookup", fn.Pos(), "no lookup in the object's tag map found")
+	}
+}
+
+// checkCopyDateConditions: HTTP dates have whole-second resolution; every comparison of a
+// source object's LastModified with x-amz-copy-source-if-(un)modified-since uses the time
+// truncated to seconds, in both places that evaluate the conditions (same-storage copies in
+// metadatapart, cross-storage copies in the conditional middleware) — otherwise the two
+// routes answer differently for a date in the second of the modification.
+func checkCopyDateConditions(w *World, r *Run) {
+	rule := r.Rule("copy-source-dates-compare-whole-seconds", "F2",
+		"every (time.Time).After/Before/Equal/Compare between an object's modification time and CopySourceConditions.IfModifiedSince / IfUnmodifiedSince has a receiver produced by Truncate(time.Second), in every function that evaluates these conditions", 4)
+	n := 0
+	for _, fn := range w.allFuncs {
+		if fn.Pkg == nil {
+			continue
+		}
+		rel := pkgRel(fn.Pkg.Pkg)
+		if rel != "internal/storage/metadatapart" && rel != "internal/storage/middlewares/conditional" {
+			continue
+		}
+		allInstrs(fn, false, func(_ *ssa.Function, ins ssa.Instruction) {
+			c, ok := ins.(*ssa.Call)
+			if !ok {
+				return
+			}
+			g := calleeObj(c)
+			if g == nil || g.Pkg() == nil || g.Pkg().Path() != "time" || recvNamed(g) == nil || recvNamed(g).Obj().Name() != "Time" {
+				return
+			}
+			switch g.Name() {
+			case "After", "Before", "Equal", "Compare":
+			default:
+				return
+			}
+			field := ""
+			for _, a := range c.Call.Args[1:] {
+				for _, fld := range []string{"IfModifiedSince", "IfUnmodifiedSince"} {
+					if derivesFromFieldOf(a, fld, nil) {
+						field = fld
+					}
+				}
+			}
+			if field == "" {
+				return
+			}
+			n++
+			trunc := sliceContains(c.Call.Args[0], false, func(x ssa.Value) bool {
+				cc, ok := x.(*ssa.Call)
+				if !ok {
+					return false
+				}
+				tg := calleeObj(cc)
+				if tg == nil || tg.Name() != "Truncate" || len(cc.Call.Args) != 2 {
+					return false
+				}
+				k, isC := intConst(cc.Call.Args[1])
+				return isC && k == 1000000000
+			})
+			cons := strings.TrimPrefix(funcName(topFunc(fn)), "internal/storage/") + ": " + g.Name() + "(" + field + ")"
+			r.Check(trunc, rule, cons, c.Pos(), "LastModified.Truncate(time.Second)", "the modification time is compared with sub-second precision against a whole-second HTTP date: for a date in the second of the modification this evaluation answers differently from its sibling (and from S3)")
+		})
+	}
+	if n == 0 {
+		r.Bad(rule, "copy-source date conditions", token.NoPos, "no comparison against IfModifiedSince / IfUnmodifiedSince found")
+	}
+}
+
+// checkC34WildcardOverlap: a one-star pattern matches a value only if prefix and suffix fit
+// into the value side by side; HasPrefix && HasSuffix alone lets them overlap
+// ("https://app.*.example.com" would match "https://app.example.com").
+func checkC34WildcardOverlap(w *World, r *Run) {
+	rule := r.Rule("wildcard-prefix-and-suffix-do-not-overlap", "F1",
+		"in wildcardMatch the HasPrefix/HasSuffix tests of a pattern with a star are reached only where len(value) >= len(prefix)+len(suffix)", 1)
+	fn := w.SSAFunc("internal/http/middleware", "wildcardMatch")
+	if fn == nil {
+		r.Anchor(rule, "middleware.wildcardMatch")
+		return
+	}
+	isLenValue := func(v ssa.Value) bool {
+		return isLenOf(v, func(x ssa.Value) bool { return paramIndex(fn, x) == 1 })
+	}
+	isSum := func(v ssa.Value) bool {
+		b, ok := v.(*ssa.BinOp)
+		return ok && b.Op == token.ADD
+	}
+	var pre, suf *ssa.Call
+	allInstrs(fn, false, func(_ *ssa.Function, ins ssa.Instruction) {
+		c, ok := ins.(*ssa.Call)
+		if !ok {
+			return
+		}
+		g := calleeObj(c)
+		if g == nil || g.Pkg() == nil || g.Pkg().Path() != "strings" || len(c.Call.Args) != 2 || paramIndex(fn, c.Call.Args[0]) != 1 {
+			return
+		}
+		switch g.Name() {
+		case "HasPrefix":
+			pre = c
+		case "HasSuffix":
+			suf = c
+		}
+	})
+	if pre == nil || suf == nil {
+		r.OK(rule, "wildcardMatch: prefix and suffix fit side by side", fn.Pos(), "no combined HasPrefix/HasSuffix test on the value")
+		return
+	}
+	good := true
+	for _, c := range []*ssa.Call{pre, suf} {
+		okc := false
+		for _, f := range factsAt(c.Block()) {
+			b, isB := f.Val.(*ssa.BinOp)
+			if !isB {
+				continue
+			}
+			switch {
+			case isLenValue(b.X) && isSum(b.Y):
+				okc = okc || (b.Op == token.LSS && f.Kind == IsFalse) || (b.Op == token.GEQ && f.Kind == IsTrue)
+			case isSum(b.X) && isLenValue(b.Y):
+				okc = okc || (b.Op == token.GTR && f.Kind == IsFalse) || (b.Op == token.LEQ && f.Kind == IsTrue)
+			}
+		}
+		good = good && okc
+	}
+	r.Check(good, rule, "wildcardMatch: prefix and suffix fit side by side", pre.Pos(), "len(value) >= len(prefix)+len(suffix) dominates both tests",
+		"prefix and suffix may overlap inside the value: a value shorter than the pattern's literal parts matches (origin https://app.example.com against https://app.*.example.com), so CORS headers are granted without a matching rule")
+}
+
+// checkC31GuardRoles: inside the guard helpers the values the caller passed as "bucket", "key",
+// "source bucket", "source key" reach the authorizer request in the field of the same role.
+// The dominance rules show that the authorizer was asked; this one shows it was asked about
+// the resource the handler goes on to use.
+func checkC31GuardRoles(w *World, r *Run) {
+	rule := r.Rule("guard-arguments-reach-the-request-field-of-their-role", "F9",
+		"makeAuthorizationRequest stores its operation/bucket/key parameters in Request.Operation/Bucket/Key; authorizeCopyRequest authorizes the destination as Bucket/Key and stores the source parameters in SourceBucket/SourceKey and binds the source-tag resolver to them; the other guards pass their bucket/key on in position", 9)
+	type role struct {
+		src  bool
+		kind string
+	}
+	roleOf := func(p *ssa.Parameter) role {
+		n := strings.ToLower(p.Name())
+		src := strings.Contains(n, "src") || strings.Contains(n, "source")
+		switch {
+		case strings.Contains(n, "version"):
+			return role{src, "version"}
+		case strings.Contains(n, "bucket"):
+			return role{src, "bucket"}
+		case strings.Contains(n, "key"):
+			return role{src, "key"}
+		case strings.Contains(n, "operation"):
+			return role{false, "operation"}
+		}
+		return role{}
+	}
+	// which role-carrying parameters of fn reach v
+	reach := func(fn *ssa.Function, v ssa.Value) map[role]bool {
+		out := map[role]bool{}
+		backSlice(v, true, func(x ssa.Value) {
+			if p, ok := x.(*ssa.Parameter); ok && p.Parent() == fn {
+				if ro := roleOf(p); ro.kind != "" {
+					out[ro] = true
+				}
+			}
+		})
+		return out
+	}
+	only := func(m map[role]bool, want role) bool {
+		if !m[want] {
+			return false
+		}
+		for ro := range m {
+			if ro != want && ro.kind != "version" {
+				return false
+			}
+		}
+		return true
+	}
+	checkFieldStores := func(fn *ssa.Function, fname string, want map[string]role) {
+		seen := map[string]bool{}
+		allInstrs(fn, false, func(_ *ssa.Function, ins ssa.Instruction) {
+			st, ok := ins.(*ssa.Store)
+			if !ok {
+				return
+			}
+			fa, ok := st.Addr.(*ssa.FieldAddr)
+			if !ok || structNameOf(fa.X.Type()) != "Request" {
+				return
+			}
+			f := fieldName(fa.X.Type(), fa.Field)
+			ro, ok := want[f]
+			if !ok {
+				return
+			}
+			seen[f] = true
+			r.Check(only(reach(fn, st.Val), ro), rule, fname+": Request."+f, st.Pos(), "from the parameter of that role", "the authorizer is asked about a different "+ro.kind+" than the one the caller named for this role: a policy on "+f+" is evaluated against the wrong resource")
+		})
+		for f := range want {
+			if !seen[f] {
+				r.Bad(rule, fname+": Request."+f, fn.Pos(), "the field is never set from the guard's parameters")
+			}
+		}
+	}
+	checkCallArgs := func(fn *ssa.Function, fname, callee string, want map[int]role) {
+		found := false
+		allInstrs(fn, false, func(_ *ssa.Function, ins ssa.Instruction) {
+			c, ok := ins.(*ssa.Call)
+			if !ok || !isCallNamed(c, callee) {
+				return
+			}
+			found = true
+			for i, ro := range want {
+				if i >= len(c.Call.Args) {
+					continue
+				}
+				r.Check(only(reach(fn, c.Call.Args[i]), ro), rule, fname+" → "+callee+" arg "+strconv.Itoa(i), c.Pos(), "from the parameter of that role", "the "+ro.kind+" handed on is not the one the caller named for this role")
+			}
+		})
+		if !found {
+			r.Bad(rule, fname+" → "+callee, fn.Pos(), "call not found")
+		}
+	}
+	if fn := w.SSAFunc(relServer, "makeAuthorizationRequest"); fn == nil {
+		r.Anchor(rule, relServer+".makeAuthorizationRequest")
+	} else {
+		checkFieldStores(fn, "makeAuthorizationRequest", map[string]role{"Operation": {false, "operation"}, "Bucket": {false, "bucket"}, "Key": {false, "key"}})
+	}
+	if fn := w.SSAFunc(relServer, "Server.authorizeCopyRequest"); fn == nil {
+		r.Anchor(rule, relServer+".Server.authorizeCopyRequest")
+	} else {
+		checkFieldStores(fn, "authorizeCopyRequest", map[string]role{"SourceBucket": {true, "bucket"}, "SourceKey": {true, "key"}})
+		checkCallArgs(fn, "authorizeCopyRequest", "makeAuthorizationRequest", map[int]role{1: {false, "operation"}, 2: {false, "bucket"}, 3: {false, "key"}})
+		checkCallArgs(fn, "authorizeCopyRequest", "makeExistingObjectTagsResolver", map[int]role{1: {true, "bucket"}, 2: {true, "key"}})
+		checkCallArgs(fn, "authorizeCopyRequest", "bindExistingObjectTagsResolver", map[int]role{2: {false, "bucket"}, 3: {false, "key"}})
+	}
+	if fn := w.SSAFunc(relServer, "Server.authorizeRequestWithRequestTags"); fn == nil {
+		r.Anchor(rule, relServer+".Server.authorizeRequestWithRequestTags")
+	} else {
+		checkCallArgs(fn, "authorizeRequestWithRequestTags", "makeAuthorizationRequest", map[int]role{1: {false, "operation"}, 2: {false, "bucket"}, 3: {false, "key"}})
+		checkCallArgs(fn, "authorizeRequestWithRequestTags", "bindExistingObjectTagsResolver", map[int]role{2: {false, "bucket"}, 3: {false, "key"}})
+	}
 }
